@@ -124,8 +124,19 @@ def shapes(fmt):
     yield "shape:temperature_zero_celsius", pygaps.PointIsotherm(pressure=[0.1, 0.2, 0.4], loading=[1.0, 1.5, 2.0], **zmeta)
     yield "shape:metadata_value_zero", pygaps.PointIsotherm(pressure=[0.1, 0.2, 0.4], loading=[1.0, 1.5, 2.0], activation_offset=0.0, **meta)
     # material properties: text and numbers, a property name that contains the marker the flat formats prefix them with
-    mmeta = dict(meta, material={'name': 'pgv_rt_mat3', 'density': 1.5, 'batch': 'b7', 'raw_material_source': 'mine'})
+    mmeta = dict(meta, material={'name': 'pgv_rt_mat3', 'density': 1.5, 'batch': 'b7', 'raw_material_source': 'mine', 'subsample_id': 'a1'})
     yield "shape:material_properties", pygaps.PointIsotherm(pressure=[0.1, 0.2, 0.4], loading=[1.0, 1.5, 2.0], **mmeta)
+    # whole numbers with a sign among the metadata (the Excel reader returns every number as a float: listed finding)
+    if fmt != 'excel':
+        yield "shape:metadata_negative_integer", pygaps.PointIsotherm(pressure=[0.1, 0.2, 0.4], loading=[1.0, 1.5, 2.0], cycle=-5, offset=-2.5, **meta)
+    # a table with its own names for the pressure and loading columns
+    own = pandas.DataFrame({'p_bar': [0.1, 0.2, 0.4], 'uptake': [1.0, 1.5, 2.0], 'dose': [3.0, 4.0, 5.0]})
+    if fmt != 'aif':  # (AIF names its pressure and amount columns itself)
+        yield "shape:own_column_names", pygaps.PointIsotherm(isotherm_data=own, pressure_key='p_bar', loading_key='uptake', **meta)
+    # a model that was never fitted: parameters set, ranges and fit error not (nan)
+    import pygaps.modelling as pgm
+    bare = pgm.get_isotherm_model('Langmuir', parameters={'K': 2.0, 'n_m': 5.0})
+    yield "shape:model_without_ranges", pygaps.ModelIsotherm(model=bare, **meta)
     # a table with repeated row labels (pandas.concat of two measurements), branch given and guessed
     a = pandas.DataFrame({'pressure': [0.1, 0.2, 0.3], 'loading': [1.0, 2.0, 2.5]})
     for br in ('ads', 'guess'):
@@ -249,10 +260,11 @@ def compare(a, b, fmt):
         for p in ma.params:
             if abs(float(ma.params[p]) - float(mb.params.get(p, float('nan')))) > 1e-8 * max(1, abs(ma.params[p])):
                 diffs.append(f"param {p}: {ma.params[p]} -> {mb.params.get(p)}")
-        if tuple(map(float, ma.pressure_range)) != tuple(map(float, mb.pressure_range)) or tuple(map(float, ma.loading_range)) != tuple(map(float, mb.loading_range)):
+        same_num = lambda u, v: len(u) == len(v) and all((x == y) or (x != x and y != y) for x, y in zip(map(float, u), map(float, v)))  # nan is nan
+        if not same_num(ma.pressure_range, mb.pressure_range) or not same_num(ma.loading_range, mb.loading_range):
             diffs.append(f"ranges {ma.pressure_range, ma.loading_range} -> {mb.pressure_range, mb.loading_range}")
         if fmt == 'json':
-            if float(ma.rmse) != float(mb.rmse):
+            if not same_num([ma.rmse], [mb.rmse]):
                 diffs.append(f"rmse {ma.rmse} -> {mb.rmse}")
             # every prediction of the model
             try:
